@@ -72,7 +72,14 @@ func (db *BoltMetaDB) ensureOpen(dir string) error {
 	//  4. Once that's committed, rename to final name and Fsync parent dir
 	_, err := os.Stat(fileName)
 	if err == nil {
-		// File exists, just open it
+		// File exists. We can't know that the rename which put it there ever
+		// became durable: the directory fsync that follows it in safeInitBoltDB
+		// may have failed (we then returned an error but left the file in place)
+		// or we may have crashed in between. Sync the directory (again) before we
+		// start relying on the file, it's cheap and only happens once per open.
+		if err := syncDir(dir); err != nil {
+			return fmt.Errorf("failed to sync dir of %s: %w", FileName, err)
+		}
 		return open()
 	}
 	if !errors.Is(err, os.ErrNotExist) {
@@ -134,6 +141,21 @@ func safeInitBoltDB(dir string) error {
 
 	// And Fsync that parent dir to make sure the new new file with it's new name
 	// is persisted!
+	dirF, err := os.Open(dir)
+	if err != nil {
+		return err
+	}
+	err = dirF.Sync()
+	closeErr := dirF.Close()
+	if err != nil {
+		return err
+	}
+	return closeErr
+}
+
+// syncDir fsyncs the directory itself so that changes to its entries (the
+// rename of the DB file into place) are persisted.
+func syncDir(dir string) error {
 	dirF, err := os.Open(dir)
 	if err != nil {
 		return err
